@@ -246,4 +246,19 @@ int jwt_head_setup(jwt_t *jwt);
 
 #define __trace() fprintf(stderr, "%s:%d\n", __func__, __LINE__)
 
+#ifdef LIBJWT_VERIF
+/* Verification hook: called right before each cryptographic primitive. */
+JWT_NO_EXPORT
+extern void (*jwt_verif_primitive_hook)(const char *site, int alg,
+					const jwk_item_t *key);
+#define JWT_VERIF_PRIMITIVE(__site, __jwt)				\
+	do {								\
+		if (jwt_verif_primitive_hook)				\
+			jwt_verif_primitive_hook((__site),		\
+				(int)(__jwt)->alg, (__jwt)->key);	\
+	} while (0)
+#else
+#define JWT_VERIF_PRIMITIVE(__site, __jwt) do {} while (0)
+#endif
+
 #endif /* JWT_PRIVATE_H */
